@@ -309,47 +309,19 @@ func (root *Root) resolveList(
 		}
 		result = rlist
 	case []string:
-		rlist := make([]interface{}, 0, len(list))
-		for _, s := range list {
-			rlist = append(rlist, s)
-		}
-		result = rlist
+		result, ea = root.resolveElems(len(list), func(i int) interface{} { return list[i] }, vars, field, lt, depth)
 	case []int:
-		rlist := make([]interface{}, 0, len(list))
-		for _, i := range list {
-			rlist = append(rlist, i)
-		}
-		result = rlist
+		result, ea = root.resolveElems(len(list), func(i int) interface{} { return list[i] }, vars, field, lt, depth)
 	case []int64:
-		rlist := make([]interface{}, 0, len(list))
-		for _, i := range list {
-			rlist = append(rlist, i)
-		}
-		result = rlist
+		result, ea = root.resolveElems(len(list), func(i int) interface{} { return list[i] }, vars, field, lt, depth)
 	case []bool:
-		rlist := make([]interface{}, 0, len(list))
-		for _, b := range list {
-			rlist = append(rlist, b)
-		}
-		result = rlist
+		result, ea = root.resolveElems(len(list), func(i int) interface{} { return list[i] }, vars, field, lt, depth)
 	case []float32:
-		rlist := make([]interface{}, 0, len(list))
-		for _, f := range list {
-			rlist = append(rlist, f)
-		}
-		result = rlist
+		result, ea = root.resolveElems(len(list), func(i int) interface{} { return list[i] }, vars, field, lt, depth)
 	case []float64:
-		rlist := make([]interface{}, 0, len(list))
-		for _, f := range list {
-			rlist = append(rlist, f)
-		}
-		result = rlist
+		result, ea = root.resolveElems(len(list), func(i int) interface{} { return list[i] }, vars, field, lt, depth)
 	case []time.Time:
-		rlist := make([]interface{}, 0, len(list))
-		for _, f := range list {
-			rlist = append(rlist, f)
-		}
-		result = rlist
+		result, ea = root.resolveElems(len(list), func(i int) interface{} { return list[i] }, vars, field, lt, depth)
 	default:
 		if root.AnyResolver != nil {
 			var rlist []interface{}
@@ -391,6 +363,27 @@ func (root *Root) resolveList(
 		}
 	}
 	return
+}
+
+// resolveElems resolves each element of a typed slice against the list's
+// element type so that every element is coerced, and reported on failure,
+// exactly like the elements of a []interface{}.
+func (root *Root) resolveElems(
+	cnt int,
+	nth func(i int) interface{},
+	vars map[string]interface{},
+	field *Field,
+	lt Type,
+	depth int) (result interface{}, ea []error) {
+
+	rlist := make([]interface{}, 0, cnt)
+	for i := 0; i < cnt; i++ {
+		v, ea2 := root.resolve(nth(i), vars, field, lt, depth)
+		Errors(ea2).in(i)
+		ea = append(ea, ea2...)
+		rlist = append(rlist, v)
+	}
+	return rlist, ea
 }
 
 func (root *Root) formArgs(
